@@ -544,6 +544,10 @@ func parentMain(args []string) int {
 	if noEvidence {
 		repDir = filepath.Join(Root, ".build", "replays-scratch", p.ID)
 	}
+	aux := os.Getenv("VERIF_AUX") != ""
+	if aux && !noEvidence {
+		repDir = filepath.Join(repDir, "aux-"+os.Getenv("VERIF_AUX"))
+	}
 	if *only == "" {
 		old, _ := filepath.Glob(filepath.Join(repDir, "*.json"))
 		for _, o := range old {
@@ -592,7 +596,9 @@ func parentMain(args []string) int {
 
 	// ---- vacuity
 	var vacuous []string
-	if *only == "" {
+	// VERIF_AUX marks an auxiliary pass over the same cases (e.g. the 32 bit build of C17): its observations are
+	// not the check's evidence and are not held to the coverage thresholds; its violations count like any other
+	if *only == "" && os.Getenv("VERIF_AUX") == "" {
 		minKeys := 2
 		if p.MinKeys != nil {
 			minKeys = p.MinKeys(*tier)
@@ -613,7 +619,7 @@ func parentMain(args []string) int {
 	}
 
 	wall := time.Since(t0).Seconds()
-	if *only == "" && !noEvidence {
+	if *only == "" && !noEvidence && !aux {
 		writeEvidence(p, *tier, *seed, agg, nviol, len(knownPrinted), wall, race, raceReports, n)
 	}
 
